@@ -8,10 +8,13 @@
 (* Orig = FALSE the repaired algorithm.  RunCut = TRUE: an over-long line   *)
 (* segment is not cut inside a run of letters that fits on a line of its    *)
 (* own (the line ends before the run); FALSE = cut wherever the line is     *)
-(* full, as found before that repair.                                       *)
+(* full, as found before that repair.  OwnBreaks = TRUE: the scanner ends a  *)
+(* line segment at the first line terminator itself; FALSE = it relies on   *)
+(* the line segmenter for that (as found in the plain scanner), and the      *)
+(* segmenter it is given may be wrong about it (MC_Wrap!SegFacts).          *)
 EXTENDS WrapRel
 
-CONSTANTS Orig, RunCut
+CONSTANTS Orig, RunCut, OwnBreaks
 
 \* line grapheme of an input grapheme
 AsLine(x) == <<IG(x), IW(x), x[3], ISt(x)>>
@@ -22,8 +25,9 @@ SumIWs(s) == IF s = <<>> THEN 0 ELSE IW(Head(s)) + SumIWs(Tail(s))
 
 \* first line segment: up to and including the first grapheme after which a
 \* break is allowed (or the end of the text)
-SegLen(rest) == IF \E i \in 1..Len(rest) : ~IGl(rest[i])
-                THEN CHOOSE i \in 1..Len(rest) : ~IGl(rest[i]) /\ \A j \in 1..(i - 1) : IGl(rest[j])
+SegEnd(rest, i) == ~IGl(rest[i]) \/ (OwnBreaks /\ INl(rest[i]))
+SegLen(rest) == IF \E i \in 1..Len(rest) : SegEnd(rest, i)
+                THEN CHOOSE i \in 1..Len(rest) : SegEnd(rest, i) /\ \A j \in 1..(i - 1) : ~SegEnd(rest, j)
                 ELSE Len(rest)
 RECURSIVE WordLen(_)
 WordLen(seg) == IF seg = <<>> THEN 0
